@@ -5,7 +5,7 @@
    background task that took it over reaches its deadline (T4 / 32 s / 64*T1; the deadlines are validated
    against the real tables by the differential runs). *)
 From Coq Require Import List Arith NArith Bool.
-From EZK Require Import Model.Forms8 Proofs.Forms8 Gen.Tables Model.C16 Proofs.C16.
+From EZK Require Import Model.Forms10 Proofs.Forms10 Model.Forms8 Proofs.Forms8 Gen.Tables Model.C16 Proofs.C16.
 Import ListNotations.
 Open Scope N_scope.
 
@@ -68,3 +68,13 @@ Proof. exact next_here. Qed.
 Theorem C16_next_from_arriving_refuted : forall arriving (k : nat), (0 < k)%nat ->
   (next_after_release_form false arriving k < arriving + N.of_nat k + 1)%N.
 Proof. exact next_from_arriving_parks. Qed.
+
+(* the pending-cancel entry of an Acceptor goes with the Acceptor - also after respond_failure, which leaves the state at Cancelled *)
+Theorem C16_acceptor_drop_guard : acceptor_drop_always_removes = true.
+Proof. reflexivity. Qed.
+
+Theorem C16_acceptor_drop_removes_entry : acceptor_drop_always_removes = true -> forall state_is_cancelled, Forms10.drop_removes state_is_cancelled = true.
+Proof. exact Forms10.drop_removes_here. Qed.
+
+Theorem C16_drop_skips_cancelled_refuted : drop_removes_form false true = false.
+Proof. exact drop_skips_cancelled. Qed.
